@@ -92,7 +92,7 @@ type c12Input struct {
 	Closers []closerSpec `json:"closers,omitempty"`
 	Script  []actSpec    `json:"script,omitempty"`
 	// stress
-	Stress string `json:"stress,omitempty"` // addcloser | add | closerun
+	Stress string `json:"stress,omitempty"` // addcloser | add | closerun | addrun
 	Reps   int    `json:"reps,omitempty"`
 	Seed   int64  `json:"seed,omitempty"`
 }
@@ -958,14 +958,13 @@ func stressCloseRun(r *hx.Rand, reps int) (races, bad int, note string) {
 	return
 }
 
-// probeAddRunEmpty (information only, never a verdict): RunnerCloserManager.Add racing with Run on a
-// manager that has no runner yet. Run reads len(mngr.runners) without the lock to decide whether
-// to add the close-runner; an Add that lands between that read and the start of the inner manager
-// is accepted and runs without close-runner, so Close cannot stop it (model:
-// C12_close_reaches_runners_refuted). Counted: Close not back within 2 s although Add returned nil.
-func probeAddRunEmpty(r *hx.Rand, reps int) (accepted, stuck int) {
+// stressAddRun: RunnerCloserManager.Add racing with Run on a manager that has no runner yet. Run
+// must decide consistently whether the runner that watches Close() is needed: bad = Add returned
+// nil and Close, called right afterwards, is not back within 2 s (nobody listens on closeCh, the
+// added runner - which waits for its context - is never cancelled), or Run / Add did not return.
+func stressAddRun(r *hx.Rand, reps int) (races, bad int, note string) {
 	bias := 0
-	for rep := 0; rep < reps && stuck < 2; rep++ {
+	for rep := 0; rep < reps && bad < 2; rep++ {
 		m := concurrency.NewRunnerCloserManager(quietLog, nil)
 		pctx, cancel := context.WithCancel(context.Background())
 		var start atomic.Bool
@@ -987,14 +986,20 @@ func probeAddRunEmpty(r *hx.Rand, reps int) (accepted, stuck int) {
 			close(added)
 		}()
 		start.Store(true)
-		<-added
+		races++
+		if !waitChan(added, waitDeadline) {
+			bad++
+			note = "Add did not return"
+			cancel()
+			continue
+		}
 		if addErr == nil {
-			accepted++
 			bias += 1 + bias/64
 			cd := make(chan struct{})
 			go func() { _ = m.Close(); close(cd) }()
 			if !waitChan(cd, 2*time.Second) {
-				stuck++
+				bad++
+				note = "Add returned nil, Close called during Run has not returned within 2 s (no runner watches closeCh)"
 			}
 		} else {
 			bias -= 1 + bias/64
@@ -1003,7 +1008,10 @@ func probeAddRunEmpty(r *hx.Rand, reps int) (accepted, stuck int) {
 			}
 		}
 		cancel()
-		waitChan(done, waitDeadline)
+		if !waitChan(done, waitDeadline) {
+			bad++
+			note = "Run did not return after its context was cancelled"
+		}
 	}
 	return
 }
@@ -1023,6 +1031,9 @@ func runStress(ctx *core.Ctx, in c12Input) {
 	case "closerun":
 		kind = 2
 		races, bad, note = stressCloseRun(r, in.Reps)
+	case "addrun":
+		kind = 3
+		races, bad, note = stressAddRun(r, in.Reps)
 	default:
 		panic("c12: bad stress kind " + in.Stress)
 	}
@@ -1506,7 +1517,7 @@ func c12Gen(ctx *core.Ctx) {
 		kind        string
 		quick, thor int
 	}
-	for _, s := range []st{{"addcloser", 10000, 400000}, {"add", 10000, 300000}, {"closerun", 3000, 60000}} {
+	for _, s := range []st{{"addcloser", 10000, 400000}, {"add", 10000, 300000}, {"closerun", 3000, 60000}, {"addrun", 12000, 400000}} {
 		reps := s.quick
 		if ctx.Thorough {
 			reps = s.thor
@@ -1518,10 +1529,6 @@ func c12Gen(ctx *core.Ctx) {
 		for c := 0; c < chunks; c++ {
 			runStress(ctx, c12Input{Kind: "stress", Stress: s.kind, Reps: reps / chunks, Seed: int64(r.U64() >> 1)})
 		}
-	}
-	if ctx.Thorough {
-		acc, stuck := probeAddRunEmpty(r, 100000)
-		ctx.Sink.Extra["info_add_vs_run_on_empty_closer_manager"] = map[string]int{"adds_accepted": acc, "close_stuck_2s": stuck}
 	}
 	genDegenerate(ctx)
 	genSeams(ctx)
